@@ -157,8 +157,7 @@ S.item(
     "solve.exact",
     site=SITE,
     bound="all labelled graphs without isolated vertex on n<=4 (quick: 46) / n<=5 (thorough: 814) vertices, " + _B_REPS
-    + "; refsem state vector over EVERY combination of measurement outcomes; thorough adds 5000 seeded graphs on 6 vertices "
-      "(of 27449, graph input, stabilizer compiler)",
+    + "; refsem state vector over EVERY combination of measurement outcomes",
     exhaustive=True,
     clause="valid circuit; photons exactly the target and every emitter |0> whatever the measurement outcomes; score 0",
 )(solve_case)
@@ -221,7 +220,7 @@ S.item(
     "solve.exact.large",
     site=SITE,
     bound="20 fixed graphs on 7..9 vertices (signed time-reversed measurements) + seeded random graphs without isolated "
-    "vertex on 7..9 vertices (quick 160, thorough 1500; <= 4 emitters, out of reach of known finding C11-F1), given as graph and as stabilizer QuantumState, stabilizer compiler; "
+    "vertex on 7..9 vertices (quick 160, thorough 1500; <= 4 emitters, out of reach of known finding C11-F1), given as graph and as stabilizer QuantumState, stabilizer compiler; thorough adds 5000 seeded graphs of the 27449 on 6 vertices (graph input); "
     "refsem state vector (up to 13 qubits) over every combination of measurement outcomes",
     clause="same contract as solve.exact on larger targets (emitter sign corrections before mid-circuit measurements)",
 )(solve_case)
@@ -302,7 +301,7 @@ def run(tier, seed):
     rng = np.random.default_rng(seed)
     thorough = tier == "thorough"
     nmax = 5 if thorough else 4
-    S.max_failures_per_item = 400  # record every failing input (the isolated-vertex item fails on its whole list)
+    S.max_failures_per_item = 120  # record every failing input (the isolated-vertex item fails on its whole fixed list of 59/102)
     plain = []
     for n in range(1, nmax + 1):
         for edges in _graphs(n):
@@ -311,10 +310,6 @@ def run(tier, seed):
             for rep in ("g", "s", "dm"):
                 for comp in ("stab", "dm"):
                     plain.append({"n": n, "edges": edges, "rep": rep, "comp": comp})
-    if thorough:
-        six = [e for e in _graphs(6) if not _has_isolated(6, e)]
-        for k in rng.choice(len(six), size=5000, replace=False):
-            plain.append({"n": 6, "edges": six[int(k)], "rep": "g", "comp": "stab"})
     nt = lambda i: len(i["edges"]) > 0
     S.map("solve.exact", plain, nontrivial=nt)
     S.map("solve.exact.isolated_vertex", isolated_cases(tier), nontrivial=nt)
@@ -354,6 +349,10 @@ def run(tier, seed):
             if not _has_isolated(n, edges):
                 break
         large.append({"n": n, "edges": edges, "rep": "gs"[k % 2], "comp": "stab"})
+    if thorough:
+        six = [e for e in _graphs(6) if not _has_isolated(6, e)]
+        for k in rng.choice(len(six), size=5000, replace=False):
+            large.append({"n": 6, "edges": six[int(k)], "rep": "g", "comp": "stab"})
     S.map("solve.exact.large", large, nontrivial=nt, chunksize=2)
     S.map("solve.vertex_order", orders, nontrivial=nt)
     S.map("solve.generating_set", gens, nontrivial=nt)
